@@ -46,7 +46,7 @@ MUTANTS = [
         ("left", KW_OR),'''),
     dict(id="no_parens", props=["C02"], file=G, old='return f"({l_pred} {operator} {r_pred})"',
          new='return f"{l_pred} {operator} {r_pred}"'),
-    dict(id="not_no_parens", props=["C02"], file=G, old='return f"({operator} {l_pred})"',
+    dict(id="not_no_parens", props=[], note="equivalent: Python's `not` already binds tighter than and/or", file=G, old='return f"({operator} {l_pred})"',
          new='return f"{operator} {l_pred}"'),
     dict(id="no_trailing_raise", props=["C02"], file=G,
          old='variant_fn_body += f"{self._newline}{self._generate_exception()}{self._newline}"',
@@ -58,7 +58,7 @@ MUTANTS = [
         return LogicalOperatorEnum.EQ'''),
     dict(id="bisect_left", props=["C03", "C16"], file=B, old="from bisect import bisect\n",
          new="from bisect import bisect_left as bisect\n"),
-    dict(id="hi_n", props=["C03", "C16"], file=B, old="hi = n - 1", new="hi = n"),
+    dict(id="hi_n", props=[], note="equivalent: u < 1 and a finite total make index n unreachable (confirmed by the solver)", file=B, old="hi = n - 1", new="hi = n"),
     dict(id="total_ge", props=["C16"], file=B, old="if total <= 0.0:", new="if total < 0.0:"),
     dict(id="inplace_accumulate", props=["C16"], file=B, old="cum_weights = list(accumulate(weights))",
          new="""for _i in range(1, len(weights)):
@@ -67,7 +67,7 @@ MUTANTS = [
     dict(id="swapped_errors", props=["C16"], file=B,
          old='raise ValueError("The number of weights does not match the population")',
          new='raise TypeError("The number of weights does not match the population")'),
-    dict(id="round_not_floor", props=["C16", "C03"], file=B,
+    dict(id="round_not_floor", props=["C16"], file=B,
          old="return population[_floor(deterministic_proba(input_id) * n)]",
          new="return population[min(round(deterministic_proba(input_id) * n), n - 1)]"),
     dict(id="checksum_before", props=["C11"], file=E, old=None, new=None, special="checksum_before"),
@@ -86,7 +86,10 @@ MUTANTS = [
     dict(id="unknown_method_wald", props=["C18"], file=S, old='elif method.lower() == "wald":', new="else:"),
     dict(id="probit_noabs", props=["C18"], file=S, old="abs(log(alpha / (1 - alpha)))", new="-log(alpha / (1 - alpha))"),
     dict(id="ascii_again", props=["C12", "C15"], file=B, old='input_string.encode("utf-8")', new='input_string.encode("ascii")'),
-    dict(id="cond_in_key", props=["C09", "C10"], file=G,
+    dict(id="cond_in_key", props=[], note="equivalent as written: conditional ids are still empty when the key is generated", file=G,
          old="fields_def = f\"''.join(map(str, [{', '.join(self.local_vars)}]))\"",
          new="fields_def = f\"''.join(map(str, [{', '.join(self.local_vars + self.conditional_ids)}]))\""),
 ]
+
+from vf.selftest.mutants2 import MORE  # noqa: E402
+MUTANTS += MORE
